@@ -536,6 +536,19 @@ pub fn remove_scratch() {
     let base = if Path::new("/dev/shm").is_dir() { PathBuf::from("/dev/shm") } else { std::env::temp_dir() };
     let _ = std::fs::remove_dir_all(base.join(format!("pv-{}", std::process::id())));
     let _ = std::fs::remove_dir_all(crate::engine::root().join("out").join("scratch").join(format!("pv-{}", std::process::id())));
+    // and what processes that no longer exist (killed children, crashed runs) left behind
+    for dir in [base, crate::engine::root().join("out").join("scratch")] {
+        if let Ok(rd) = std::fs::read_dir(&dir) {
+            for e in rd.flatten() {
+                let name = e.file_name().to_string_lossy().to_string();
+                if let Some(pid) = name.strip_prefix("pv-").and_then(|p| p.parse::<u32>().ok()) {
+                    if !Path::new(&format!("/proc/{pid}")).exists() {
+                        let _ = std::fs::remove_dir_all(e.path());
+                    }
+                }
+            }
+        }
+    }
 }
 
 pub const EXTRA_TABLES: [&str; 3] = ["xa", "xb", "xc"];
